@@ -191,6 +191,23 @@ def swallowed_failures(ctx, info):
     out = []
     for cb, t, tgt in info.calls:
         r = an.call_expr(t, cb)
+        # the Result of the delegated update is not tested at all (`self.insert(..).ok();`, `let _ = ..`) while a
+        # successful exit is reachable afterwards
+        tested = False
+        for n in cfg.nodes:
+            si = an.switch_info(n)
+            if si is None or si[0].k != "discr":
+                continue
+            if any(x.k == "call" and x.site == cb and x.a[0].full == t.callee.full for x in si[0].walk()):
+                tested = True
+        if not tested:
+            returned = False
+            for bb, idx, e, node in ea.ret_sites():
+                if any(x.k == "call" and x.site == cb and x.a[0].full == t.callee.full for x in e.walk()):
+                    returned = True  # handed back to the caller (possibly through map/map_err/and_then)
+            if not returned and ok_blocks & (set(cfg.reach(cb)) | {cb}):
+                out.append((tgt, t.sp))
+                continue
         for n in cfg.nodes:
             si = an.switch_info(n)
             if si is None or si[0].k != "discr" or not si[3]:
